@@ -183,7 +183,10 @@ impl SlidingCounterState {
 
         // No capacity - estimate when a slot will be available
         // As time progresses, previous_weight decreases, freeing up capacity
-        let time_until_slot = self.estimate_wait_time(elapsed_ratio);
+        // Never zero: a zero wait means "permit consumed" to the caller
+        let time_until_slot = self
+            .estimate_wait_time(elapsed_ratio)
+            .max(Duration::from_nanos(1));
 
         if time_until_slot > self.timeout_duration {
             Err(self.timeout_duration)
@@ -305,6 +308,14 @@ impl RateLimiterStateInner {
         }
     }
 
+    fn timeout_duration(&self) -> Duration {
+        match self {
+            Self::Fixed(state) => state.timeout_duration,
+            Self::SlidingLog(state) => state.timeout_duration,
+            Self::SlidingCounter(state) => state.timeout_duration,
+        }
+    }
+
     fn available_permits(&self) -> usize {
         match self {
             Self::Fixed(state) => state.available_permits(),
@@ -340,30 +351,26 @@ impl SharedRateLimiter {
     /// Attempts to acquire a permit.
     /// Returns Ok(duration_waited) if successful, Err if rate limited.
     pub(crate) async fn acquire(&self) -> Result<Duration, ()> {
-        let result = {
-            let mut state = self.state.lock().unwrap();
-            state.try_acquire()
-        };
-
-        match result {
-            Ok(Duration::ZERO) => {
-                // Got permit immediately
-                Ok(Duration::ZERO)
-            }
-            Ok(wait_duration) => {
-                // Need to wait
-                sleep(wait_duration).await;
-
-                // Try again after waiting
+        let start = Instant::now();
+        loop {
+            let (result, timeout) = {
                 let mut state = self.state.lock().unwrap();
-                match state.try_acquire() {
-                    Ok(additional_wait) => Ok(wait_duration + additional_wait),
-                    Err(_) => Err(()), // Timeout exceeded
+                (state.try_acquire(), state.timeout_duration())
+            };
+
+            match result {
+                // A permit was consumed
+                Ok(Duration::ZERO) => return Ok(start.elapsed()),
+                // No permit was consumed: wait for the next opportunity, but never
+                // beyond the caller's timeout, then compete for a permit again
+                Ok(wait_duration) => {
+                    if start.elapsed() + wait_duration > timeout {
+                        return Err(());
+                    }
+                    sleep(wait_duration).await;
                 }
-            }
-            Err(_) => {
                 // Timeout would be exceeded
-                Err(())
+                Err(_) => return Err(()),
             }
         }
     }
